@@ -1,20 +1,36 @@
 /-
 Bridge between the GENERATED material-law definitions (Generated/MaterialLaws.lean, translated from the
-Python source) at `α := ℝ` and the clean real functions of Proofs/Lemmas/MaterialLaws.lean.
+Python source) at `α := ℝ` and (a) the clean real functions of Proofs/Lemmas/MaterialLaws.lean (`curve`, `compl`),
+(b) the hand-written textbook model Model/MaterialLaws.lean.
+
+Every property theorem of Proofs/C16.lean goes through the interface lemmas of THIS file and never unfolds a generated
+definition itself.  The interface lemmas are proved by `gen_bridge`:
+  * `unfold_generated_material_laws` (regenerated together with the module) unfolds EVERY generated definition, so the
+    proofs do not name helper methods / locals that a refactoring may add, rename or inline;
+  * `np_log1p` / `np_expm1` / `py_max` / `py_min` are rewritten to their real meaning, literals are normalised by
+    `norm_num`, `x ^ (2:ℝ)` becomes `x ^ 2`;
+  * what remains must be an identity of fields: `ring1`, `ring_nf` (normalises inside `rpow` / `log` / `abs` atoms as
+    well), `field_simp` with the side conditions in scope.
+So a HARMLESS respelling of the source (`np.log1p(x)` for `np.log(1. + x)`, `x ** 2` / `np.square(x)` / `x * x`,
+`(…) / E` for `1. / E * (…)`, re-ordered summands and factors, extra local temporaries, inlined or added helpers,
+`0.5 * E / (1 + nu)` for `E / (2. * (1 + nu))`) keeps every theorem of C16 provable, while a changed coefficient,
+sign, exponent or guard does not.
 -/
 import Proofs.Lemmas.MaterialLaws
+import Proofs.Lemmas.GeneratedPrelude
 import Generated.MaterialLaws
+import Generated.MaterialLawsUnfold
 import Model.MaterialLaws
+import Mathlib.Tactic.SplitIfs
 
--- fall-back alternatives (`<;> ring`, `first | … | …`) keep the proofs stable under harmless re-orderings of the
--- translated source; on the current source some of them are not reached
 set_option linter.unusedTactic false
 set_option linter.unreachableTactic false
 set_option linter.unusedVariables false
 set_option linter.unnecessarySeqFocus false
+set_option linter.unusedSimpArgs false
 
 namespace PylifeVerif.C16L
-open PylifeVerif.Generated
+open PylifeVerif.Generated PylifeVerif.MaterialLaws
 
 theorem lit_one : (1.0 : ℝ) = 1 := by norm_num
 theorem lit_two : (2.0 : ℝ) = 2 := by norm_num
@@ -22,31 +38,181 @@ theorem lit_three : (3.0 : ℝ) = 3 := by norm_num
 
 theorem rsign_eq (x : ℝ) : Transc.sign x = rsign x := rfl
 
+/-- one scalar identity of fields, whatever the spelling -/
+macro "gen_leaf" : tactic => `(tactic| first
+  | rfl
+  | ring1
+  | (ring_nf; done)
+  | (norm_num; done)
+  | (norm_num; ring1)
+  | (norm_num; ring_nf; done)
+  | (field_simp; done)
+  | (field_simp; ring1)
+  | (field_simp; ring_nf; done)
+  | (norm_num; field_simp; done)
+  | (norm_num; field_simp; ring1)
+  | (norm_num; field_simp; ring_nf; done)
+  | (congr 1; ring_nf; done)
+  | (norm_num; congr 1; ring_nf; done)
+  | (congr 1 <;> ring_nf <;> done)
+  | (congr 2 <;> ring_nf <;> done))
+
+/-- real meaning of the transcendental symbols and of the prelude helpers -/
+macro "gen_real" : tactic => `(tactic| simp only [rsign_eq, transc_abs, transc_pow, transc_log, transc_exp, transc_sqrt,
+  np_log1p_real, np_expm1_real, py_max_real, py_min_real, Real.rpow_two, Real.rpow_natCast, lit_one, lit_two, lit_three,
+  Prod.mk.injEq])
+
+/-- generated definition(s) = hand-written expression: unfold everything generated, give the symbols their real
+meaning, split tuples into components, close every component as an identity of fields -/
+macro "gen_bridge" : tactic => `(tactic|
+  ((try unfold_generated_material_laws) <;> (try gen_real) <;> (repeat' apply And.intro) <;> gen_leaf))
+
+/-! ### Ramberg-Osgood -/
+
 theorem ro_strain_eq_curve (E K n : ℝ) : RambergOsgood.strain E K n = curve E K (1 / n) := by
   funext σ
-  simp only [RambergOsgood.strain, RambergOsgood.elastic_strain, RambergOsgood.plastic_strain,
-    RambergOsgood._get_abs_sign, RambergOsgood.attr_E, RambergOsgood.attr_K, RambergOsgood.attr_n,
-    rsign_eq, transc_abs, transc_pow, lit_one, curve, plast] <;> ring
+  simp only [curve, plast]
+  gen_bridge
 
 theorem ro_compliance_eq_compl {K n : ℝ} (hK : K ≠ 0) (hn : n ≠ 0) (E σ : ℝ) :
     RambergOsgood.tangential_compliance E K n σ = compl E K (1 / n) σ := by
-  simp only [RambergOsgood.tangential_compliance, RambergOsgood.attr_E, RambergOsgood.attr_K,
-    RambergOsgood.attr_n, transc_abs, transc_pow, lit_one, compl]
-  have h : (1:ℝ) / (n * K) = 1 / n / K := by rw [div_div]
-  first | rw [h] | (rw [← h] <;> ring) | (field_simp <;> ring)
+  simp only [compl]
+  gen_bridge
 
-/-- interface lemmas for the Masing range functions (robust against a re-ordering of the factors) -/
+theorem ro_modulus_eq (E K n σ : ℝ) :
+    RambergOsgood.tangential_modulus E K n σ = (RambergOsgood.tangential_compliance E K n σ)⁻¹ := by
+  gen_bridge
+
+/-- interface lemmas for the Masing range functions -/
 theorem ro_delta_strain_eq (E K n Δσ : ℝ) :
     RambergOsgood.delta_strain E K n Δσ = 2 * RambergOsgood.strain E K n (Δσ / 2) := by
-  simp only [RambergOsgood.delta_strain, lit_two] <;> ring
+  gen_bridge
 
 theorem ro_delta_stress_eq (E K n : ℝ) (f : ℝ → ℝ) (Δε : ℝ) :
     RambergOsgood.delta_stress E K n f Δε = 2 * f (Δε / 2) := by
-  simp only [RambergOsgood.delta_stress, lit_two] <;> ring
+  gen_bridge
 
 theorem ro_lower_hysteresis_eq (E K n σ σmax : ℝ) :
     RambergOsgood.lower_hysteresis E K n σ σmax
       = RambergOsgood.strain E K n σmax - RambergOsgood.delta_strain E K n (σmax - σ) := by
-  simp only [RambergOsgood.lower_hysteresis] <;> ring
+  gen_bridge
+
+/-- the guard of `lower_hysteresis`: it raises exactly for stress > max_stress -/
+theorem ro_lower_hysteresis_guard (E K n σ σmax : ℝ) :
+    RambergOsgood.lower_hysteresis_raises E K n σ σmax = false ↔ σ ≤ σmax := by
+  unfold_generated_material_laws
+  first
+    | (simp; done)
+    | (norm_num; done)
+    | (simp; constructor <;> intro h <;> linarith)
+
+/-! ### Hooke: generated = textbook model (Model/MaterialLaws.lean) -/
+
+theorem hooke1d_stress_eq (E x : ℝ) : HookesLaw1d.stress E x = hooke1dStress E x := by
+  simp only [hooke1dStress]; gen_bridge
+
+theorem hooke1d_strain_eq (E x : ℝ) : HookesLaw1d.strain E x = hooke1dStrain E x := by
+  simp only [hooke1dStrain]; gen_bridge
+
+/-- the side conditions of the Hooke bridges: E ≠ 0, 1 + ν ≠ 0, 1 - ν ≠ 0, 1 - 2ν ≠ 0 (several spellings, for `field_simp`) -/
+structure HookeSide (E nu : ℝ) : Prop where
+  hE : E ≠ 0
+  h3 : 1 + nu ≠ 0
+  h4 : 1 - nu ≠ 0
+  h6 : 1 - 2 * nu ≠ 0
+  h6' : 1 - nu * 2 ≠ 0
+  h5 : 1 - nu ^ 2 ≠ 0
+  h5' : 1 - nu * nu ≠ 0
+  h7 : (1 - nu) ^ 2 - nu ^ 2 ≠ 0
+  h8 : 1 - nu / (1 - nu) ≠ 0
+  h9 : 1 + nu / (1 - nu) ≠ 0
+  h10 : 1 - nu - nu ≠ 0
+
+theorem hookeSide {E nu : ℝ} (hE : 0 < E) (h1 : -1 < nu) (h2 : nu < 1 / 2) : HookeSide E nu := by
+  have h3 : 1 + nu ≠ 0 := by linarith
+  have h4 : 1 - nu ≠ 0 := by linarith
+  have h6 : 1 - 2 * nu ≠ 0 := by linarith
+  have h5 : 1 - nu ^ 2 ≠ 0 := by
+    have : 1 - nu ^ 2 = (1 - nu) * (1 + nu) := by ring
+    rw [this]; exact mul_ne_zero h4 h3
+  refine ⟨hE.ne', h3, h4, h6, by linarith, h5, by rw [← pow_two]; exact h5, ?_, ?_, ?_, by linarith⟩
+  · have : (1 - nu) ^ 2 - nu ^ 2 = 1 - 2 * nu := by ring
+    rw [this]; exact h6
+  · have : 1 - nu / (1 - nu) = (1 - 2 * nu) / (1 - nu) := by field_simp; ring
+    rw [this]; exact div_ne_zero h6 h4
+  · have : 1 + nu / (1 - nu) = 1 / (1 - nu) := by field_simp; ring
+    rw [this]; exact div_ne_zero one_ne_zero h4
+
+/-- bring the side conditions into the context (for `field_simp`) and bridge -/
+macro "hooke_bridge" s:ident : tactic => `(tactic|
+  (obtain ⟨hE, h3, h4, h6, h6', h5, h5', h7, h8, h9, h10⟩ := $s
+   gen_bridge))
+
+theorem hooke_G_eq (E nu : ℝ) :
+    HookesLaw3d.attr_G E nu = shearModulus E nu ∧ HookesLaw2dPlaneStress.attr_G E nu = shearModulus E nu ∧
+    HookesLaw2dPlaneStrain.attr_G E nu = shearModulus E nu := by
+  simp only [shearModulus]; gen_bridge
+
+theorem hooke_K_eq (E nu : ℝ) :
+    HookesLaw3d.attr_K E nu = bulkModulus E nu ∧ HookesLaw2dPlaneStress.attr_K E nu = bulkModulus E nu ∧
+    HookesLaw2dPlaneStrain.attr_K E nu = bulkModulus E nu := by
+  simp only [bulkModulus]; gen_bridge
+
+theorem hooke3d_strain_eq {E nu : ℝ} (s : HookeSide E nu) (a b c d e f : ℝ) :
+    HookesLaw3d.strain E nu a b c d e f = hooke3dStrain E nu a b c d e f := by
+  simp only [hooke3dStrain, shearModulus]; hooke_bridge s
+
+theorem hooke3d_stress_eq {E nu : ℝ} (s : HookeSide E nu) (a b c d e f : ℝ) :
+    HookesLaw3d.stress E nu a b c d e f = hooke3dStress E nu a b c d e f := by
+  simp only [hooke3dStress, shearModulus]; hooke_bridge s
+
+theorem planeStress_strain_eq {E nu : ℝ} (s : HookeSide E nu) (a b c : ℝ) :
+    HookesLaw2dPlaneStress.strain E nu a b c = planeStressStrain E nu a b c := by
+  simp only [planeStressStrain, shearModulus]; hooke_bridge s
+
+theorem planeStress_stress_eq {E nu : ℝ} (s : HookeSide E nu) (a b c : ℝ) :
+    HookesLaw2dPlaneStress.stress E nu a b c = planeStressStress E nu a b c := by
+  simp only [planeStressStress, shearModulus]; hooke_bridge s
+
+theorem planeStrain_strain_eq {E nu : ℝ} (s : HookeSide E nu) (a b c : ℝ) :
+    HookesLaw2dPlaneStrain.strain E nu a b c = planeStrainStrain E nu a b c := by
+  simp only [planeStrainStrain, shearModulus]; hooke_bridge s
+
+theorem planeStrain_stress_eq {E nu : ℝ} (s : HookeSide E nu) (a b c : ℝ) :
+    HookesLaw2dPlaneStrain.stress E nu a b c = planeStrainStress E nu a b c := by
+  simp only [planeStrainStress, shearModulus]; hooke_bridge s
+
+/-- the constructor guard of the three classes: it raises exactly outside -1 ≤ ν ≤ 1/2 -/
+theorem hooke_init_guard_eq (E nu : ℝ) :
+    (HookesLaw3d.init_raises E nu = false ↔ (-1 ≤ nu ∧ nu ≤ 1 / 2)) ∧
+    (HookesLaw2dPlaneStress.init_raises E nu = false ↔ (-1 ≤ nu ∧ nu ≤ 1 / 2)) ∧
+    (HookesLaw2dPlaneStrain.init_raises E nu = false ↔ (-1 ≤ nu ∧ nu ≤ 1 / 2)) := by
+  unfold_generated_material_laws
+  refine ⟨?_, ?_, ?_⟩ <;>
+    first
+      | (simp [lit_one, lit_two]; done)
+      | (norm_num; done)
+      | (simp [lit_one, lit_two]; norm_num; done)
+      | (simp [lit_one, lit_two]; constructor <;> intro h <;> constructor <;> linarith [h.1, h.2])
+      | (norm_num; constructor <;> intro h <;> constructor <;> linarith [h.1, h.2])
+
+/-! ### true stress / strain -/
+
+theorem true_strain_eq (e : ℝ) : true_strain e = Real.log (1 + e) := by gen_bridge
+
+theorem true_stress_eq (s e : ℝ) : true_stress s e = s * (1 + e) := by gen_bridge
+
+/-- `log (1/(1-Z))`, `-log (1-Z)` and `-log1p(-Z)` are the same real function (`Real.log_inv`, also at Z = 1) -/
+theorem true_fracture_strain_eq (Z : ℝ) : true_fracture_strain Z = -Real.log (1 - Z) := by
+  (try unfold_generated_material_laws) <;> (try gen_real) <;> first
+    | (rw [one_div, Real.log_inv]; done)
+    | rfl
+    | (ring_nf; done)
+    | (rw [← sub_eq_add_neg]; done)
+    | (congr 2; ring_nf; done)
+    | (rw [one_div, Real.log_inv]; congr 2; ring_nf; done)
+    | (rw [← Real.log_inv]; congr 1; field_simp; done)
+
+theorem true_fracture_stress_eq (F A Z : ℝ) : true_fracture_stress F A Z = F / (A * (1 - Z)) := by gen_bridge
 
 end PylifeVerif.C16L
